@@ -13,7 +13,7 @@ from vf.checks import bio_kernels as bk
 
 PID = "C09"
 CFGS = ["BioConsert", "BioConsert[Copeland]", "BioCo", "BioConsert[KwikSort,Borda]", "BioConsert[PickAPerm]",
-        "BioConsert[Copeland,PickAPerm]", "BioConsert[KwikSort]"]
+        "BioConsert[Copeland,PickAPerm]", "BioConsert[KwikSort]", "BioConsert[Borda,Borda(bucket_id)]"]
 
 
 def run(run):
